@@ -4,6 +4,19 @@
 From SV Require Export Model.Expr.
 Open Scope Q_scope.
 
+Fixpoint sx_eqb (x y : sx) : bool :=
+  match x, y with
+  | A a, A b => Z.eqb a b
+  | L l, L m =>
+      (fix go (l m : list sx) : bool :=
+         match l, m with
+         | [], [] => true
+         | a :: l', b :: m' => sx_eqb a b && go l' m'
+         | _, _ => false
+         end) l m
+  | _, _ => false
+  end.
+
 (* ---------- decoders ---------- *)
 Definition d_Z (x : sx) : option Z := match x with A z => Some z | _ => None end.
 Definition d_nat (x : sx) : option nat := option_map Z.to_nat (d_Z x).
